@@ -926,7 +926,11 @@ class MatrixOperator(Operator):
                 out[:] = self.matrix.dot(x)
             elif self.range.ndim == 1:
                 with writable_array(out) as out_arr:
-                    self.matrix.dot(x, out=out_arr)
+                    if out_arr.flags.c_contiguous:
+                        self.matrix.dot(x, out=out_arr)
+                    else:
+                        # `dot` accepts only C-contiguous arrays as `out`
+                        out_arr[:] = self.matrix.dot(x)
             else:
                 # Could use einsum to have out, but it's damn slow
                 # TODO: investigate speed issue
